@@ -49,7 +49,7 @@ RootRec == [low |-> RootLow, uid |-> RootUid, gid |-> RootUid]
 
 (* ---------------- the code ---------------- *)
 \* get_effective_id_mapping
-EffW(sm, cm, idx) == IF IsMap(sm[idx]) THEN sm[idx] ELSE cm
+EffW(sm, cm, idx) == IF Given(sm[idx]) THEN sm[idx] ELSE cm      \* Some(m) of any range, else the global one
 IEff(idx) == EffW(smap, cmap, idx)
 
 \* allocate_fs_idx: fetch_add loop over a u8 (modulo Wrap); `found` marks the second visit of `start`.
@@ -75,7 +75,8 @@ AllocSame == LoopAlloc => AllocLoop(sb, nexts, nexts, FALSE) = AllocCF(sb, nexts
 
 PathStr(p) == IF p = BadPath THEN "bad" ELSE IF Len(p) = 1 THEN "/" ELSE
               LET RECURSIVE J(_)  J(i) == IF i > Len(p) THEN "" ELSE "/" \o p[i] \o J(i + 1) IN J(2)
-MapRec(m) == [i |-> m.i.h * B + m.i.l, e |-> m.e.h * B + m.e.l, r |-> m.r.h * B + m.r.l]
+MapRec(m) == IF m = NoMap THEN [i |-> 0, e |-> 0, r |-> 0, some |-> FALSE]
+             ELSE [i |-> m.i.h * B + m.i.l, e |-> m.e.h * B + m.e.l, r |-> m.r.h * B + m.r.l, some |-> TRUE]
 IdN(x) == x.h * B + x.l
 
 \* what the code answers for the three id observations at a mounted path (predictions exported
@@ -108,12 +109,12 @@ IMount(p, b, m) ==
        /\ UNCHANGED <<avars, sb, mnt, smap, cmap, omap, ipn, inext, iinit, inempty, dirty, restored>>
        /\ Log([op |-> "mount", path |-> PathStr(p), b |-> b, m |-> MapRec(m), idx |-> -1])
   ELSE \E idx \in {a.idx} :
-       \E sm1 \in {IF IsMap(m) \/ "S6b" \notin Bugs THEN [smap EXCEPT ![idx] = Canon(m)] ELSE smap} :   \* stored only for Some
+       \E sm1 \in {IF Given(m) \/ "S6b" \notin Bugs THEN [smap EXCEPT ![idx] = m] ELSE smap} :   \* stored only for Some
           IF p = BadPath
           THEN \* insert_mount_locked: self.root.mount(path)? fails with EINVAL; index and mapping already taken
                /\ nexts' = a.next /\ aok' = AMountFailPre(FALSE, TRUE)
                /\ smap' = IF "S6b" \in Bugs THEN sm1 ELSE [smap EXCEPT ![idx] = NoMap]     \* (patched: cleared again)
-               /\ dirty' = [dirty EXCEPT ![idx] = @ \/ IsMap(m)]
+               /\ dirty' = [dirty EXCEPT ![idx] = @ \/ Given(m)]
                /\ UNCHANGED <<avars, sb, mnt, cmap, omap, ipn, inext, iinit, inempty, restored>>
                /\ Log([op |-> "mount", path |-> PathStr(p), b |-> b, m |-> MapRec(m), idx |-> -1])
           ELSE \E r \in {MkT(ipn, inext, RootNode, p)} :
@@ -129,8 +130,8 @@ IMount(p, b, m) ==
                   /\ aok' = AMountPre(idx)
                   /\ AMountEff(p, b, m, RootRec, idx)
                   /\ dirty' = [i \in 0..N-1 |->
-                                 IF i = idx THEN (dirty[i] /\ ~IsMap(m))                  \* a given mapping overwrites
-                                 ELSE IF over /\ i = oldi THEN (IsMap(given[i]) \/ dirty[i])   \* left behind by the over-mount
+                                 IF i = idx THEN (dirty[i] /\ ~Given(m))                  \* a given mapping overwrites
+                                 ELSE IF over /\ i = oldi THEN (Given(given[i]) \/ dirty[i])   \* left behind by the over-mount
                                  ELSE dirty[i]]
                   /\ UNCHANGED <<cmap, omap, iinit, inempty, restored>>
                   /\ Log([op |-> "mount", path |-> PathStr(p), b |-> b, m |-> MapRec(m), idx |-> idx])
@@ -220,14 +221,14 @@ Spec == Init /\ [][Next]_vars
 \*      visible when translating the translated root uid moves it again
 KnownS6a(idx) == "S6a" \in Known /\ Out(AEff(idx), Out(AEff(idx), RootUid)) # Out(AEff(idx), RootUid)
 \* S6b: a mount given no mapping takes an index in which an over-mounted (or failed) mount left its mapping
-KnownS6b(idx) == "S6b" \in Known /\ ~IsMap(given[idx]) /\ dirty[idx]
+KnownS6b(idx) == "S6b" \in Known /\ ~Given(given[idx]) /\ dirty[idx]
 \* S7a: after save/restore into Vfs::new(default) the global mapping is not in effect
-KnownS7a(idx) == "S7a" \in Known /\ restored /\ IsMap(gmap) /\ ~IsMap(given[idx])
+KnownS7a(idx) == "S7a" \in Known /\ restored /\ IsMap(gmap) /\ ~Given(given[idx])
 \* S7b: after save/restore `initialized` is recomputed from in_opts: lost when INIT offered no capability
 KnownS7b == "S7b" \in Known /\ inited /\ inempty
 \* RM: the caller ids of requests on node 1 are translated with the global mapping although the root
 \*     mount ("/") has its own
-KnownRM == "RM" \in Known /\ IsMp(RootNode) /\ IsMap(given[mp[RootNode]]) /\ (given[mp[RootNode]] # gmap \/ restored)
+KnownRM == "RM" \in Known /\ IsMp(RootNode) /\ Given(given[mp[RootNode]]) /\ (given[mp[RootNode]] # gmap \/ restored)
 
 (* ---------------- invariants: I => A ---------------- *)
 TypeOK == /\ nexts \in 0..Wrap-1 /\ \A i \in 0..N-1 : sb[i] \in Backends \cup {Vacant}
